@@ -148,6 +148,11 @@ def respell(draw, case):
     if ws == 2 and draw(st.booleans()):
         text = text + draw(st.sampled_from(['\n# trailing comment', '\n#', '\n', '  ']))
         kinds.add('comment-lines')
+    if draw(st.integers(0, 5)) == 0:
+        # list tables ignore query modifiers: appending one (keyword in any letter case) must change nothing
+        text = text.rstrip() if not text.rstrip().endswith('#') else text
+        text += '\n' + mixed_case(draw, 'with') + draw(st.sampled_from([' ', '', '  '])) + '(' + draw(st.sampled_from(['header', 'noheader', 'headers'])) + ')'
+        kinds.add('with-modifier-noop')
     semi = draw(st.integers(0, 4))
     if semi == 1:
         text += ';'
